@@ -31,9 +31,11 @@ type c01State struct {
 type c01World struct {
 	restarts int
 	*storSim
-	owner    chain.Account
-	accounts []chain.Account // everybody who may submit proofs
-	holders  map[string]bool // accounts that own the data (submit honest proofs)
+	owner     chain.Account
+	accounts  []chain.Account // everybody who may submit proofs
+	holders   map[string]bool // accounts that own the data (submit honest proofs)
+	deleted   map[string]bool // files their owner has deleted
+	deletions int
 	// classes seen
 	rejectedDishonestOnOpenFile bool
 	paidAfterRejection          bool
@@ -79,8 +81,8 @@ func (w *c01World) refValid(s c01Submission) bool {
 		return false
 	}
 	uf, exists := w.getFile(s.Target)
-	if !exists {
-		return false
+	if !exists || w.deleted[s.Target.key()] {
+		return false // unknown to the chain, or deleted by its owner: a file nobody can prove any more
 	}
 	member := false
 	for _, p := range w.listedProvers(s.Target) {
@@ -376,7 +378,7 @@ func mutateProof(rt *rapid.T, hl []byte) []byte {
 }
 
 func newC01World(c *chain.Chain, chunk, W, C int64) *c01World {
-	w := &c01World{storSim: newStorSim(c, 4), owner: chain.Acc(0), holders: map[string]bool{}, classes: map[string]int{}}
+	w := &c01World{storSim: newStorSim(c, 4), owner: chain.Acc(0), holders: map[string]bool{}, classes: map[string]int{}, deleted: map[string]bool{}}
 	w.setParams(func(p *storagetypes.Params) {
 		p.ChunkSize, p.ProofWindow, p.CheckWindow, p.CollateralPrice = chunk, W, C, 1000
 	})
@@ -496,6 +498,7 @@ func TestC01(t *testing.T) {
 		W := rapid.Int64Range(2, 12).Draw(rt, "window")
 		C := rapid.Int64Range(2, 8).Draw(rt, "check")
 		w := newC01World(c, chunk, W, C)
+		w.proofType = rapid.SampledFrom([]int64{0, 0, 0, 1, 2, -1}).Draw(rt, "proofType")
 		nH := rapid.IntRange(2, 7).Draw(rt, "holders")
 		for i := 0; i < nH; i++ {
 			// posting a proof does not require a provider registration: now and then a holder has none
@@ -819,6 +822,35 @@ func TestC01(t *testing.T) {
 					w.classes["provider-shut-down"]++
 				}
 			},
+			// the owner deletes one of its files (in half of the cases a month later, when the plan that paid for it has run
+			// out): from then on the file is unknown - proofs for it change nothing and nobody is paid for it
+			"ownerDeletes": func(rt *rapid.T) {
+				if len(w.files) < 2 {
+					rt.Skip()
+				}
+				f := drawFile(rt)
+				if w.deleted[f.key()] {
+					rt.Skip()
+				}
+				if rapid.Bool().Draw(rt, "afterThePlanRanOut") {
+					sig, msg := w.nextBlock(31*24*time.Hour, 0)
+					if sig == "panic" {
+						sig = "C01/panic"
+					}
+					fail(sig, msg)
+				}
+				res := w.f.Exec(&storagetypes.MsgDeleteFile{Creator: f.Owner, Merkle: f.Merkle, Start: f.Start})
+				w.logf("owner deletes %s -> %s", f.id(), res)
+				if res.OK() {
+					w.deleted[f.key()] = true
+					for k, p := range w.pairs {
+						if p.File.key() == f.key() {
+							delete(w.pairs, k)
+						}
+					}
+					w.deletions++
+				}
+			},
 			"advance": func(rt *rapid.T) {
 				n := rapid.IntRange(1, 4).Draw(rt, "blocks")
 				dt := rapid.SampledFrom([]time.Duration{6 * time.Second, time.Hour}).Draw(rt, "blockTime")
@@ -836,6 +868,9 @@ func TestC01(t *testing.T) {
 		}
 		if w.crossIndexTried {
 			rec.Count("histories-with-cross-index-attempt")
+		}
+		if w.deletions > 0 {
+			rec.Count("histories-in-which-the-owner-deleted-a-file")
 		}
 		rec.Case(w.paidAfterRejection, ev.Hash(w.trace...), func() interface{} { return w.trace })
 	})
